@@ -447,18 +447,25 @@ func (vc *VC) run() {
 		return
 	}
 	vc.exitReach = ex.st.reach
-	env := vc.newEnv(fr, ex.st, fr.entry)
 	sig := fn.Signature
-	for i, r := range ex.results {
-		rt := sig.Results().At(i).Type()
-		if i == 0 {
-			env.names["result"] = Bound{r, rt}
+	mkExitEnv := func(e *exitInfo) *Env {
+		env := vc.newEnv(fr, e.st, fr.entry)
+		for i, r := range e.results {
+			rt := sig.Results().At(i).Type()
+			if i == 0 {
+				env.names["result"] = Bound{r, rt}
+			}
+			env.names[fmt.Sprintf("result%d", i)] = Bound{r, rt}
+			if n := sig.Results().At(i).Name(); n != "" && n != "_" {
+				env.names[n] = Bound{r, rt}
+			}
 		}
-		env.names[fmt.Sprintf("result%d", i)] = Bound{r, rt}
-		if n := sig.Results().At(i).Name(); n != "" && n != "_" {
-			env.names[n] = Bound{r, rt}
-		}
+		return env
 	}
+	env := mkExitEnv(ex)
+	// postconditions are checked per return statement (smaller, path-specific queries) when the
+	// function has a handful of returns, else once at the merged exit
+	perReturn := con.Flags["per-return"] != "" && len(fr.exits) > 1 && len(fr.exits) <= 12
 	var extraEvals []NamedTerm
 	for _, ev := range con.Evals {
 		func() {
@@ -475,11 +482,18 @@ func (vc *VC) run() {
 		}()
 	}
 	for i, e := range con.Ensures {
-		g := vc.specBool(env, e)
 		lbl := e.Label
 		if lbl == "" {
 			lbl = fmt.Sprintf("%d", i)
 		}
+		if perReturn {
+			for k, xe := range fr.exits {
+				g := vc.specBool(mkExitEnv(xe), e)
+				vc.addObl(fr, xe.st, "post", fmt.Sprintf("%s@return%d", lbl, k), g, e, token.NoPos)
+			}
+			continue
+		}
+		g := vc.specBool(env, e)
 		o := vc.addObl(fr, ex.st, "post", lbl, g, e, token.NoPos)
 		if o != nil {
 			o.Evals = append(o.Evals, extraEvals...)
